@@ -46,11 +46,19 @@ class Stack(object):
         self.resp_args = resp_args
         self.pause = pause
         self.resource = None
+        # one lane per concurrent request (selected by the X-Req header)
+        self.lanes = {'A': (trace, resp_args, act)}
         self.app = self._build(extra_setup, response_type)
+
+    def add_lane(self, tag, trace, resp_args, act):
+        self.lanes[tag] = (trace, resp_args, act)
+
+    def lane(self, req):
+        return self.lanes.get(req.get_header('X-Req') or 'A') or self.lanes['A']
 
     # what a site does after having been recorded
     def _perform(self, site, req, resp):
-        a = self.act(site)
+        a = self.lane(req)[2](site)
         if a is None or a == 'return':
             return
         if a == 'complete':
@@ -74,7 +82,7 @@ class Stack(object):
 
                 def mk_req(i):
                     async def process_request(self, req, resp):
-                        st.trace.append('mw%d.request' % i)
+                        st.lane(req)[0].append('mw%d.request' % i)
                         if st.pause:
                             await st.pause()
                         st._perform('mw%d.request' % i, req, resp)
@@ -82,7 +90,7 @@ class Stack(object):
 
                 def mk_rsrc(i):
                     async def process_resource(self, req, resp, resource, params):
-                        st.trace.append('mw%d.resource' % i)
+                        st.lane(req)[0].append('mw%d.resource' % i)
                         if st.pause:
                             await st.pause()
                         st._perform('mw%d.resource' % i, req, resp)
@@ -90,8 +98,8 @@ class Stack(object):
 
                 def mk_resp(i):
                     async def process_response(self, req, resp, resource, req_succeeded):
-                        st.trace.append('mw%d.response' % i)
-                        st.resp_args.append((i, resource is not None and resource is st.resource,
+                        st.lane(req)[0].append('mw%d.response' % i)
+                        st.lane(req)[1].append((i, resource is not None and resource is st.resource,
                                              resource is None, req_succeeded))
                         if st.pause:
                             await st.pause()
@@ -102,20 +110,20 @@ class Stack(object):
 
                 def mk_req(i):
                     def process_request(self, req, resp):
-                        st.trace.append('mw%d.request' % i)
+                        st.lane(req)[0].append('mw%d.request' % i)
                         st._perform('mw%d.request' % i, req, resp)
                     return process_request
 
                 def mk_rsrc(i):
                     def process_resource(self, req, resp, resource, params):
-                        st.trace.append('mw%d.resource' % i)
+                        st.lane(req)[0].append('mw%d.resource' % i)
                         st._perform('mw%d.resource' % i, req, resp)
                     return process_resource
 
                 def mk_resp(i):
                     def process_response(self, req, resp, resource, req_succeeded):
-                        st.trace.append('mw%d.response' % i)
-                        st.resp_args.append((i, resource is not None and resource is st.resource,
+                        st.lane(req)[0].append('mw%d.response' % i)
+                        st.lane(req)[1].append((i, resource is not None and resource is st.resource,
                                              resource is None, req_succeeded))
                         st._perform('mw%d.response' % i, req, resp)
                     return process_response
@@ -130,13 +138,13 @@ class Stack(object):
         # responder + hooks (hooks[0] is the outermost decorator)
         if self.asgi:
             async def on_get(self, req, resp, **params):
-                st.trace.append('responder')
+                st.lane(req)[0].append('responder')
                 if st.pause:
                     await st.pause()
                 st._perform('responder', req, resp)
         else:
             def on_get(self, req, resp, **params):
-                st.trace.append('responder')
+                st.lane(req)[0].append('responder')
                 st._perform('responder', req, resp)
         fn = on_get
         hooks = plan['hooks']
@@ -147,13 +155,13 @@ class Stack(object):
                 if self.asgi:
                     def mk(site):
                         async def action(req, resp, resource, params):
-                            st.trace.append(site)
+                            st.lane(req)[0].append(site)
                             st._perform(site, req, resp)
                         return action
                 else:
                     def mk(site):
                         def action(req, resp, resource, params):
-                            st.trace.append(site)
+                            st.lane(req)[0].append(site)
                             st._perform(site, req, resp)
                         return action
                 fn = falcon.before(mk(site))(fn)
@@ -161,13 +169,13 @@ class Stack(object):
                 if self.asgi:
                     def mk(site):
                         async def action(req, resp, resource):
-                            st.trace.append(site)
+                            st.lane(req)[0].append(site)
                             st._perform(site, req, resp)
                         return action
                 else:
                     def mk(site):
                         def action(req, resp, resource):
-                            st.trace.append(site)
+                            st.lane(req)[0].append(site)
                             st._perform(site, req, resp)
                         return action
                 fn = falcon.after(mk(site))(fn)
@@ -187,11 +195,14 @@ class Stack(object):
 class _Env(Env):
     def __init__(self):
         self.conn = None
+        self.conn2 = None
         self.paused = []
         self.ch = None
 
     def actions(self):
         acts = list(self.conn.actions(3, 3, 3)) if self.conn else []
+        if self.conn2 is not None:
+            acts.extend(self.conn2.actions(3, 3, 3))
         live = [f for f in self.paused if not f.done()]
         self.paused = live
         if live:
@@ -199,7 +210,8 @@ class _Env(Env):
         return acts
 
     def _resume(self):
-        f = self.paused.pop(0)
+        i = self.ch.draw(len(self.paused), 'resume') if len(self.paused) > 1 else 0
+        f = self.paused.pop(i)
         if not f.done():
             f.set_result(None)
 
@@ -223,8 +235,9 @@ def run_wsgi(ctx, stack_factory, path, headers=(), method='GET'):
 
 
 def run_asgi(ctx, stack_factory, path, headers=(), method='GET', concurrent_pause=True,
-             fail_send_at=(), send_suspends=None):
-    """Returns (monitor, stack, finished, app_exc, loop_sig)."""
+             fail_send_at=(), send_suspends=None, second=None):
+    """Returns (conn, stack, finished, app_exc, loop_sig). `second` = (path,
+    setup(stack)) runs a second request concurrently on the same app (lane B)."""
     ch = ctx.ch
     env = _Env()
     env.ch = ch
@@ -246,12 +259,30 @@ def run_asgi(ctx, stack_factory, path, headers=(), method='GET', concurrent_paus
     conn.fail_send_at = frozenset(fail_send_at)
     env.conn = conn
     result = {}
+    conn2 = None
+    if second is not None:
+        path2, setup2 = second
+        setup2(st)
+        scope2 = http_scope(method=method, path=path2, headers=list(headers) + [('X-Req', 'B')])
+        conn2 = Conn(sim, 'http', scope2, body_events([]), HttpMonitor(),
+                     recv_suspends=True, send_suspends=True, lost_mode='oserror', name='B')
+        env.conn2 = conn2
+
+    async def one(c, sc, key):
+        try:
+            await st.app(sc, c.receive, c.send)
+        except Exception as ex:
+            result[key] = ex
 
     async def driver():
-        try:
-            await st.app(scope, conn.receive, conn.send)
-        except Exception as ex:
-            result['exc'] = ex
+        if conn2 is None:
+            await one(conn, scope, 'exc')
+            return
+        import asyncio
+        t1 = asyncio.ensure_future(one(conn, scope, 'exc'))
+        t2 = asyncio.ensure_future(one(conn2, scope2, 'exc2'))
+        await t1
+        await t2
 
     finished = False
     try:
@@ -265,4 +296,6 @@ def run_asgi(ctx, stack_factory, path, headers=(), method='GET', concurrent_paus
         loop.drain()
     finally:
         loop.close()
+    st.conn2 = conn2
+    st.exc2 = result.get('exc2')
     return conn, st, finished, result.get('exc'), sig
